@@ -794,6 +794,14 @@ static void svt_enc_handle_dctor(EbPtr p)
 {
     EbEncHandle *enc_handle_ptr = (EbEncHandle *)p;
 
+    if (!enc_handle_ptr->scs_instance_array || !enc_handle_ptr->scs_instance_array[0] ||
+        !enc_handle_ptr->scs_instance_array[0]->scs_ptr) {
+        // the constructor failed before the sequence control set instance existed:
+        // no thread, pool or process context has been created yet
+        EB_FREE_PTR_ARRAY(enc_handle_ptr->app_callback_ptr_array, enc_handle_ptr->encode_instance_total_count);
+        EB_DELETE_PTR_ARRAY(enc_handle_ptr->scs_instance_array, enc_handle_ptr->encode_instance_total_count);
+        return;
+    }
     svt_enc_handle_stop_threads(enc_handle_ptr);
     EB_FREE_PTR_ARRAY(enc_handle_ptr->app_callback_ptr_array, enc_handle_ptr->encode_instance_total_count);
     EB_DELETE(enc_handle_ptr->scs_pool_ptr);
